@@ -173,6 +173,7 @@ func (reqmnt *BondgoRequirements) Usage_Monitor(useditem chan UsageNotify, usage
 UB:
 	for {
 		notif := <-useditem
+		verifPoint("monitor-recv")
 
 		targettype := notif.TargetType
 		targetid := notif.TargetId
@@ -294,6 +295,7 @@ UB:
 			}
 
 		case TR_EXIT:
+			verifPoint("monitor-exit")
 			break UB
 		}
 	}
